@@ -125,7 +125,9 @@ def make_replay(verif, pid, r, oid):
         native = run_native(verif, fam, u.id, inputs)
     confirmed = bool(native and native.get('ran') and native.get('misbehaves'))
     fn = re.sub(r'[^A-Za-z0-9_.@-]', '_', '%s-%s-%s.json' % (pid, uid, oid))
-    path = os.path.join(verif, 'replays', fn)
+    rdir = os.environ.get('VERIF_REPLAYS', os.path.join(verif, 'replays'))
+    os.makedirs(rdir, exist_ok=True)
+    path = os.path.join(rdir, fn)
     doc = {
         'property': pid, 'unit': uid, 'function': r.facts.get('target'), 'source': r.facts.get('src'),
         'failed_obligation': oid, 'clause': r.obligations[oid]['desc'],
